@@ -542,5 +542,8 @@ func init() {
 	register(&Family{Name: "c09-firstbyte", Enumerated: true, Count: func(string) int { return 256 }, Gen: genC09FirstByte, New: newSc, Run: runC09, Policy: pol, VirtCap: 5 * time.Minute})
 	register(&Family{Name: "c09-peers", Count: func(tier string) int { return map[string]int{"quick": 3000, "thorough": 100000}[tier] },
 		Gen: genC09, New: newSc, Run: runC09, Policy: pol, VirtCap: 5 * time.Minute})
-	plans["C09"] = []string{"c09-firstbyte", "c09-peers"}
+	// c08-history under C09: a replaying prober is an unauthenticated peer; an
+	// accepted replay (sequential, N at once, across clean-ups, in the other
+	// transport's envelope) is answered with the server's own handshake reply
+	plans["C09"] = []string{"c09-firstbyte", "c09-peers", "c08-history"}
 }
